@@ -8,10 +8,15 @@ import towerlib as T
 from common import ToolError, Verdict, build, log, seed, workdir, write_evidence
 
 
+E2E_PIDS = ("C01", "C02", "C04", "C07", "C08", "C09")
+
+
 def classify(tag):
     """(tag, site, scenario class) used for matching against known_findings.json"""
     ev = tag["event"]
-    return tag["what"], ev["act"], tag["scenario"]["name"].split("-")[0]
+    name = tag["scenario"]["name"]
+    # concurrency scenarios are identified by their operation set (full name), the others by their family
+    return tag["what"], ev["act"], name if name.startswith("conc-") else name.split("-")[0]
 
 
 def run(pid, tier, replay, scenarios_fn, rule, assumptions, level="model_checking", design_stats=None, extra_tags=None):
@@ -35,7 +40,14 @@ def run(pid, tier, replay, scenarios_fn, rule, assumptions, level="model_checkin
         replayed, replay_info = mc_tower.replay_scenarios(pid, tier, seed())
         scenarios = scenarios + replayed
     camp.run(scenarios, pid.lower())
-    mine = [t for t in camp.tags if t["prop"] == pid or (extra_tags and extra_tags(t))]
+    # end-to-end tier: the real teosd binary (everything wired in main.rs), same judge
+    e2e_stats = {}
+    e2e_tags = []
+    if not replay and pid in E2E_PIDS:
+        import e2e
+        e2e_tags = e2e.run(pid, tier)
+        e2e_stats = e2e.last_stats
+    mine = [t for t in camp.tags if t["prop"] == pid or (extra_tags and extra_tags(t))] + e2e_tags
     others = {}
     for t in camp.tags:
         if t not in mine:
@@ -62,6 +74,7 @@ def run(pid, tier, replay, scenarios_fn, rule, assumptions, level="model_checkin
         "aborts_of_code_under_test_observed": camp.aborts,
         "concurrent_schedules_executed": getattr(camp, "conc_schedules", 0),
         "spec_to_impl_tlc_behaviours_replayed": replay_info,
+        "end_to_end_teosd_binary": e2e_stats,
         "tags_of_other_properties": {"%s.%s" % k: v for k, v in others.items()},
         "known_findings_hit": verdict.known_hits,
         "samples": camp.samples[:3] if camp.samples else [{"scenario": scenarios[0]["name"], "ops": scenarios[0]["ops"][:8]}],
